@@ -208,6 +208,7 @@ def cmd_check(prop, tier, budget_s=None, selftest_n=None):
     print(f"[{prop}] batches: {agg['evaluations']} runs in {agg['wall_batch_s']:.1f}s", flush=True)
     if agg['harness_errors']:
         print("HARNESS-ERROR:", agg['harness_errors'][0]['harness_error'][-3000:])
+        print("HARNESS-ERROR items (class, index) at VERIF_SEED=%d:" % verif_seed, [e.get('item') for e in agg['harness_errors'][:10]])
         return EXIT_HARNESS
     extra_viol = []
     if hasattr(mod, 'extra_phase'):
